@@ -304,4 +304,19 @@ each mutation made in a scratch worktree, VERIF_SRC=<worktree>/aldor/aldor/src b
  Unchanged tree: exit 0 with seeds 20261004 (default), 11, 222 after the findings were recorded; truncations inside the LAST
  section of an .ao (`fileid') flip between Fault/Rejected/Garbage from run to run (uninitialised buffer), so the three
  `sect.* trunc -> Garbage` findings were confirmed by repetition (gen/libfile.py repro ... --off 9424/9428/9431).
+
+Update after the lead committed the three fixes (/repo cd62b20 = 8386d63 + cc3e710 + cd62b20):
+ * known_findings.jsonl: 34 C17 lines are now status "fixed" (commit attributed by quick runs at each of the three commits);
+   19 stay open: 15 payload-substitution classes keyed (format, class, kind) - the key covers the outcome set
+   {Fault, Garbage, Hang} because which one occurs is incidental - plus ao/al tbl.name subst -> Fault,
+   al member.tbl.length subst -> Fault and al member.numSect subst -> Fault (a class that APPEARED with cc3e710: genuine,
+   deterministic; candidate fixes hooks/fix-C17-unused-table-entries.diff and hooks/fix-C17-archive-member-extent.diff,
+   with both the quick tier shows no violation and one finding fewer).
+ * determinism: seeds 1, 2, 3, 5, 99 and 20261004 -> exit 0 with the identical set of 19 KNOWN-FINDING lines; the same seed
+   twice -> identical.  The .fm quick sample now has a seed-independent base (24 offsets per token class) besides the
+   seeded extras.  Exhaustive side runs on the repaired tree: all 11 170 truncations of small.fm on both routes and
+   all substitutions (6 values) of every fm.close / fm.string.quote byte are Rejected or Same, so no seed can alarm there;
+   every truncation of .ao/.al is refused by the extent check.
+ * mutation on the repaired tree: libGetHeader without `|| !libChkExtent(lib)` -> CAUGHT (4 VIOLATIONs: numSect subst -> Fault
+   on all three .ao routes, tbl.length subst -> Fault): "fixed" lines suppress nothing.
 """
